@@ -39,8 +39,8 @@ SDK = re.compile(r"^Sdk\.Equal$")
 PROPS = {
     "C01": dict(
         title="single-item operations behave as a key->item map",
-        quick=[G("M_C01a"), T("M_NUMKEY"), T("M_HKEYS", observe="last"), H(30)],
-        thorough=[G("M_C01a"), G("M_C01b"), T("M_NUMKEY"), T("M_HKEYS", observe="last"), H(600, 60)],
+        quick=[G("M_C01a"), T("M_NUMKEY"), T("M_HKEYS", observe="last"), T("M_UPSERT"), H(30)],
+        thorough=[G("M_C01a"), G("M_C01b"), T("M_NUMKEY"), T("M_HKEYS", observe="last"), T("M_UPSERT"), H(600, 60)],
         own=[parts("Outcome", "ErrClass", "Data", "Base", "Desc", "Catalog")],
         design_ref="DESIGN.md 6 C01",
         level_text="Every (state, operation) transition of a bounded key->item model (3 keys, Put/Update/Delete/Get menus) is "
@@ -50,8 +50,9 @@ PROPS = {
 }
 PROPS["C03"] = dict(
     title="secondary indexes always mirror the base table",
-    quick=[G("M_IDX"), G("M_IDX", cfg="M_IDX_ill"), G("M_TIDX"), T("M_DOTQ"), H(30)],
-    thorough=[G("M_IDX", cfg="M_IDX_t"), G("M_IDX", cfg="M_IDX_ill"), G("M_TIDX", cfg="M_TIDX_t"), T("M_DOTQ"), H(600, 60)],
+    # preobs: the state is also observed BEFORE the operation of each trace (read through the indexes, write, read again)
+    quick=[G("M_IDX"), G("M_IDX", cfg="M_IDX_ill"), G("M_TIDX", preobs=True), T("M_DOTQ"), H(30)],
+    thorough=[G("M_IDX", cfg="M_IDX_t", preobs=True), G("M_IDX", cfg="M_IDX_ill"), G("M_TIDX", cfg="M_TIDX_t", preobs=True), T("M_DOTQ"), H(600, 60)],
     own=[parts("Index", "IdxCount", "IdxDesc")],
     design_ref="DESIGN.md 6 C03",
     level_text="Every history of put / overwrite / update / delete / clear / create-index / delete-index over a bounded table with two "
@@ -76,8 +77,8 @@ PROPS["C05"] = dict(
 )
 PROPS["C08"] = dict(
     title="a request that fails leaves no trace",
-    quick=[G("M_FAIL"), G("M_IDX", cfg="M_IDX_ill"), H(30)],
-    thorough=[G("M_FAIL", cfg="M_FAIL_t"), G("M_IDX", cfg="M_IDX_ill"), H(600, 60)],
+    quick=[G("M_FAIL"), G("M_FAIL2"), G("M_IDX", cfg="M_IDX_ill"), H(30)],
+    thorough=[G("M_FAIL", cfg="M_FAIL_t"), G("M_FAIL2"), G("M_IDX", cfg="M_IDX_ill"), H(600, 60)],
     own=[parts("Base", "Index", "IdxCount", "IdxDesc", "Desc", "Catalog")],
     when=lambda f: f["oc"] != "ok",      # C08 speaks about calls that fail; a wrongly accepted request belongs to C07/C13/C16
     level="fault_enumeration",
@@ -89,7 +90,7 @@ PROPS["C08"] = dict(
 )
 PROPS["C02"] = dict(
     title="Query and Scan return exactly the matching items, in sort-key order",
-    quick=[G("M_READ"), T("M_DOTQ"), G("M_TIDX"), G("M_IDX", cfg="M_IDX_ill"), H(30)],
+    quick=[G("M_READ"), T("M_DOTQ"), T("M_KCSEQ"), G("M_TIDX"), G("M_IDX", cfg="M_IDX_ill"), H(30)],
     thorough=[G("M_READ", cfg="M_READ_t"), T("M_DOTQ"), G("M_IDX", cfg="M_IDX_t"), G("M_TIDX", cfg="M_TIDX_t"), H(600, 60)],
     own=[parts("Outcome", "Data", "NoCrash"), parts("Index")],
     when=lambda f: f["op"] in ("Query", "Scan", "Walk") or any(p.endswith(".Index") for p in f["parts"]),   # reads, and reads through indexes in observations
@@ -116,7 +117,8 @@ PROPS["C18"] = dict(
     thorough=[G("M_LIFE", cfg="M_LIFE_t"), H(600, 60)],
     # a table name is created once, also when several callers create it at the same moment
     conc_quick=[dict(scenario="createrace", seeds=3, g=8, n=30, race=False), dict(scenario="lifecycle", seeds=2, g=5, n=8)],
-    conc_thorough=[dict(scenario="createrace", seeds=20, g=8, n=40, race=False), dict(scenario="lifecycle", seeds=20, g=6, n=12)],
+    conc_thorough=[dict(scenario="createrace", seeds=20, g=8, n=40, race=False), dict(scenario="batchrace", seeds=5, g=6, n=6, lin=False),
+              dict(scenario="batchrace", seeds=5, g=8, n=10, race=False, lin=False), dict(scenario="lifecycle", seeds=20, g=6, n=12)],
     own=[parts("Outcome", "ErrClass", "Data", "Base", "Index", "IdxCount", "IdxDesc", "Desc", "Catalog", "NoCrash")],
     design_ref="DESIGN.md 6 C18",
     level_text="Every interleaving of create (helper and full CreateTable, valid and invalid configurations, both billing modes, global and "
@@ -187,10 +189,10 @@ PROPS["C07"] = dict(
 PROPS["C09"] = dict(
     title="the expression front end is total and strict",
     quick=[L("M_TOK", cfg="M_TOK_cond"), L("M_TOK", cfg="M_TOK_upd"), L("M_SENT", cfg="M_SENT_cond"), L("M_SENT", cfg="M_SENT_upd"),
-           dict(kind="R", gen="strings", n=3000, maxlen=600)],
+           G("M_KC"), dict(kind="R", gen="strings", n=3000, maxlen=600)],
     thorough=[L("M_TOK", cfg="M_TOK_cond_t"), L("M_TOK", cfg="M_TOK_upd_t"), L("M_SENT", cfg="M_SENT_cond"), L("M_SENT", cfg="M_SENT_upd"),
-              dict(kind="R", gen="strings", n=6000, maxlen=2048)],
-    own=[labparts("NoCrash", "Accepted", "Placeholders", "Reserved", "Outcome", "Result", "Modified")],
+              G("M_KC"), dict(kind="R", gen="strings", n=6000, maxlen=2048)],
+    own=[labparts("NoCrash", "Accepted", "Placeholders", "Reserved", "Outcome", "Result", "Modified"), parts("NoCrash")],
     design_ref="DESIGN.md 6 C09",
     level_text="TLC spells every string of up to 3 (thorough: 4) tokens over a 20-token condition alphabet and a 17-token update alphabet "
                "(names, placeholders, operators, delimiters, keywords in both letter cases, function names, path steps, an illegal character) "
@@ -201,8 +203,8 @@ PROPS["C09"] = dict(
 )
 PROPS["C16"] = dict(
     title="DynamoDB usage restrictions are detected",
-    quick=[L("M_RES"), L("M_PH"), G("M_KC")],
-    thorough=[L("M_RES", cfg="M_RES_t"), L("M_PH"), G("M_KC")],
+    quick=[L("M_RES"), L("M_PH"), G("M_KC"), T("M_KCSEQ")],
+    thorough=[L("M_RES", cfg="M_RES_t"), L("M_PH"), G("M_KC"), T("M_KCSEQ")],
     own=[labparts("Reserved", "Placeholders", "Outcome", "Accepted", "NoCrash"), parts("Outcome", "NoCrash")],
     design_ref="DESIGN.md 6 C16",
     level_text="All 573 reserved words (frozen list), in upper and lower case, in 4 (thorough: 12) bare-name positions of conditions and updates; "
@@ -212,8 +214,8 @@ PROPS["C16"] = dict(
 )
 PROPS["C13"] = dict(
     title="primary keys identify items faithfully and are enforced",
-    quick=[G("M_KEYS", cfg="M_KEYS_S"), T("M_NUMKEY"), T("M_HKEYS", observe="last"), H(20)],
-    thorough=[G("M_KEYS", cfg="M_KEYS_S_t"), G("M_KEYS", cfg="M_KEYS_B"), T("M_NUMKEY"), T("M_HKEYS", observe="last"), H(300, 60)],
+    quick=[G("M_KEYS", cfg="M_KEYS_S"), T("M_NUMKEY"), T("M_HKEYS", observe="last"), T("M_UPSERT"), H(20)],
+    thorough=[G("M_KEYS", cfg="M_KEYS_S_t"), G("M_KEYS", cfg="M_KEYS_B"), T("M_NUMKEY"), T("M_HKEYS", observe="last"), T("M_UPSERT"), H(300, 60)],
     own=[parts("Outcome", "ErrClass", "Data", "Base", "Desc", "NoCrash")],
     design_ref="DESIGN.md 6 C13",
     level_text="Hash+range keys (string and binary) over byte alphabets built to collide under separator-joined encodings, stored at most 2 "
@@ -274,9 +276,12 @@ PROPS["C11"] = dict(
     title="the client is safe for concurrent use and its operations are atomic",
     engine="conc",
     quick=[dict(scenario="counter", seeds=2, g=6, n=6), dict(scenario="putonce", seeds=2, g=6, n=4), dict(scenario="mixed", seeds=3, g=5, n=8),
-           dict(scenario="lifecycle", seeds=3, g=5, n=8), dict(scenario="createrace", seeds=2, g=6, n=8), dict(scenario="createrace", seeds=3, g=8, n=30, race=False), dict(scenario="indexreads", seeds=2, g=5, n=6)],
+           dict(scenario="lifecycle", seeds=3, g=5, n=8), dict(scenario="createrace", seeds=2, g=6, n=8), dict(scenario="createrace", seeds=3, g=8, n=30, race=False),
+           dict(scenario="batchrace", seeds=1, g=6, n=4, lin=False), dict(scenario="batchrace", seeds=1, g=8, n=8, race=False, lin=False),
+           dict(scenario="cancel", seeds=1, g=2, n=1), dict(scenario="indexreads", seeds=2, g=5, n=6)],
     thorough=[dict(scenario="counter", seeds=10, g=8, n=10), dict(scenario="putonce", seeds=10, g=8, n=6), dict(scenario="mixed", seeds=40, g=6, n=12),
-              dict(scenario="lifecycle", seeds=40, g=6, n=12), dict(scenario="createrace", seeds=20, g=8, n=8), dict(scenario="createrace", seeds=20, g=8, n=40, race=False),
+              dict(scenario="lifecycle", seeds=40, g=6, n=12), dict(scenario="createrace", seeds=20, g=8, n=8), dict(scenario="createrace", seeds=20, g=8, n=40, race=False), dict(scenario="batchrace", seeds=5, g=6, n=6, lin=False),
+              dict(scenario="batchrace", seeds=5, g=8, n=10, race=False, lin=False),
               dict(scenario="indexreads", seeds=20, g=6, n=8)],
     own=[],
     design_ref="DESIGN.md 6 C11",
